@@ -410,7 +410,7 @@ func vlGuard(what string, d time.Duration, fn func()) {
 		if len(dump) > 6000 {
 			dump = dump[:6000]
 		}
-		fmt.Printf("INFRA: %s did not return within %s; goroutines in services/meta and raft:\n%s\n", what, d, dump)
+		fmt.Printf("goroutines in services/meta and raft:\n%s\nINFRA: %s did not return within %s\n", dump, what, d)
 		vtrace.Out(map[string]interface{}{"k": "infra", "what": what + " did not return"})
 		os.Exit(3)
 	}
@@ -1139,4 +1139,3 @@ func TestVerifLeaseCluster(t *testing.T) {
 		t.Fail()
 	}
 }
-
